@@ -118,7 +118,9 @@ class StatementSplitter:
                 self._reset()
 
             # Change current split level (increase, decrease or remain equal)
-            self.level += self._change_splitlevel(ttype, value)
+            # An unbalanced closing token doesn't open a level below zero.
+            self.level = max(
+                0, self.level + self._change_splitlevel(ttype, value))
 
             # Append the token to the current statement
             self.tokens.append(sql.Token(ttype, value))
